@@ -342,6 +342,122 @@ def gen_removal2(rng):
     out.append("top frameend")
     return "\n".join(out) + "\n"
 
+def gen_dsp(rng):
+    """C08/C07: despawn reactors on a few entities: register, revoke, register again on the same (still live) entity, `with`
+    on an existing reactor, despawn by command / world access / recursively / from inside a reactor, polls in between."""
+    g = G(rng); out = []
+    nE = rng.randint(2, 3)
+    g.ndefs = rng.randint(1, 2)
+    for d in range(g.ndefs):
+        runs = []
+        for _ in range(rng.randint(1, 2)):
+            sc = []
+            for _ in range(rng.randint(0, 2)):
+                x = rng.random(); e = "e%d" % rng.randrange(nE)
+                if x < 0.3: sc.append("despawn %s" % e)
+                elif x < 0.5: sc.append("revoke t%d" % rng.randrange(3))
+                elif x < 0.7 and d + 1 < g.ndefs: sc.append("on %s %d dsp:%s" % (rng.choice("cr"), d + 1, e))
+                elif x < 0.85: sc.append("broadcast 0 %d" % g.newpid())
+                else: sc.append("run s%d" % rng.randrange(3))
+            runs.append(sc)
+        out.append("def 0 %d" % len(runs))
+        for sc in runs: out.append("run %d" % len(sc)); out += sc
+    setup = ["spawn"] * nE
+    nS = 0; nT = 0
+    def reg():
+        nonlocal nS, nT
+        e = "e%d" % rng.randrange(nE)
+        ts = ["dsp:%s" % e]
+        if rng.random() < 0.3: ts.append("dsp:e%d" % rng.randrange(nE))
+        if rng.random() < 0.3: ts.append(rng.choice(["bc:0", "erem:%s:0" % e, "eev:%s:0" % e]))
+        rng.shuffle(ts)
+        x = rng.random()
+        if x < 0.55 or nS == 0:
+            m = rng.choice("rrcp"); nS += 1
+            if m == "r": nT += 1
+            return "on %s %d %s" % (m, rng.randrange(g.ndefs), " ".join(ts))
+        if x < 0.8:
+            m = rng.choice("rrp")
+            if m == "r": nT += 1
+            return "with %s s%d %s" % (m, rng.randrange(nS), " ".join(ts))
+        nS += 1; nT += 1
+        return "once %d %s" % (rng.randrange(g.ndefs), " ".join(ts))
+    for _ in range(rng.randint(1, 3)): setup.append(reg())
+    for e in range(nE):
+        if rng.random() < 0.5: setup.append("insert e%d 0 1" % e)
+    out.append("top acts %d" % len(setup)); out += setup
+    for _ in range(rng.randint(3, 8)):
+        x = rng.random()
+        if x < 0.65:
+            sc = []
+            for _ in range(rng.randint(1, 3)):
+                y = rng.random(); e = "e%d" % rng.randrange(nE)
+                if y < 0.3 and nT: sc.append("revoke t%d" % rng.randrange(nT))
+                elif y < 0.6: sc.append(reg())
+                elif y < 0.75: sc.append("despawn %s" % e)
+                elif y < 0.8: sc.append("despawnrec %s" % e)
+                elif y < 0.9: sc.append("broadcast 0 %d" % g.newpid())
+                else: sc.append("run s%d" % rng.randrange(max(1, nS)))
+            out.append("top acts %d" % len(sc)); out += sc
+        elif x < 0.75: out.append("top poll")
+        elif x < 0.85: out.append("top frameend")
+        elif x < 0.9: out.append("top gc")
+        elif x < 0.95: out.append("top wdespawn e%d" % rng.randrange(nE))
+        else: out.append("top wsetparent e%d e%d" % (rng.randrange(nE), rng.randrange(nE)))
+    out.append("top frameend")
+    return "\n".join(out) + "\n"
+
+def gen_access2(rng):
+    """C14: every accessor against entities whose component / life ends in the same batch: the accessor call sees the entity
+    (commands are deferred) while its trigger command is applied after a despawn / removal / re-insert queued earlier;
+    type-wide and entity-scoped insertion / mutation probes, resource accessors with equal and different values."""
+    g = G(rng); out = []
+    nE = rng.randint(2, 3)
+    g.ndefs = rng.randint(1, 3)
+    def access(e):
+        ty = rng.randrange(NTY); x = rng.random()
+        if x < 0.3: return "mutate %s %d %d" % (e, ty, rng.randrange(3))
+        if x < 0.55: return "setneq %s %d %d" % (e, ty, rng.randrange(3))
+        if x < 0.75: return "insert %s %d %d" % (e, ty, rng.randrange(3))
+        if x < 0.82: return "read %s %d" % (e, ty)
+        if x < 0.88: return "resset %d %d" % (ty, rng.randrange(3))
+        if x < 0.94: return "ressetneq %d %d" % (ty, rng.randrange(3))
+        return "resread %d" % ty
+    def ender(e):
+        x = rng.random()
+        if x < 0.4: return "despawn %s" % e
+        if x < 0.8: return "remove %s %d" % (e, rng.randrange(NTY))
+        return "insert %s %d %d" % (e, rng.randrange(NTY), rng.randrange(3))
+    def batch(lo, hi):
+        sc = []
+        for _ in range(rng.randint(lo, hi)):
+            e = "e%d" % rng.randrange(nE)
+            if rng.random() < 0.45: sc.append(ender(e)); sc.append(access(e))
+            else: sc.append(access(e))
+        return sc
+    excl = [rng.random() < 0.1 for _ in range(g.ndefs)]
+    for d in range(g.ndefs):
+        runs = [([] if excl[d] else batch(0, 2)) for _ in range(rng.randint(1, 2))]
+        out.append("def %d %d" % (1 if excl[d] else 0, len(runs)))
+        for sc in runs: out.append("run %d" % len(sc)); out += sc
+    setup = ["spawn"] * nE
+    for e in range(nE):
+        for ty in range(NTY):
+            if rng.random() < 0.85: setup.append("insert e%d %d %d" % (e, ty, rng.randrange(3)))
+    for _ in range(rng.randint(2, 4)):
+        ts = []
+        for _ in range(rng.randint(1, 3)):
+            x = rng.random(); e = "e%d" % rng.randrange(nE); ty = rng.randrange(NTY)
+            ts.append(rng.choice(["mut:%d" % ty, "mut:%d" % ty, "ins:%d" % ty, "emut:%s:%d" % (e, ty), "eins:%s:%d" % (e, ty), "res:%d" % ty, "rem:%d" % ty]))
+        setup.append("on %s %d %s" % (rng.choice("ppc"), rng.randrange(g.ndefs), " ".join(ts)))
+    out.append("top acts %d" % len(setup)); out += setup
+    for _ in range(rng.randint(3, 7)):
+        sc = batch(1, 3)
+        out.append("top acts %d" % len(sc)); out += sc
+        if rng.random() < 0.15: out.append("top frameend")
+    out.append("top frameend")
+    return "\n".join(out) + "\n"
+
 def gen_visibility(rng):
     """C03/C04/C05: several listeners per event; bodies run other systems (probes) and send further events, so readers
     are sampled at every position of the tree while data entities are still alive."""
@@ -544,6 +660,8 @@ PROFILES = {
     "visibility": gen_visibility,
     "sharedkey": gen_sharedkey,
     "removal2": gen_removal2,
+    "dsp": gen_dsp,
+    "access2": gen_access2,
     "access": lambda rng: gen_mix(rng, weights=dict(access=6, trigger=5, register=1.5), body_weights=dict(access=4, trigger=4)),
     "once": lambda rng: gen_mix(rng, weights=dict(register=3, trigger=6, revoke=2, life=1), body_weights=dict(trigger=5, register=1.5, revoke=1)),
     "stale": lambda rng: gen_mix(rng, weights=dict(life=5, trigger=4, control=4, register=2, revoke=2), body_weights=dict(life=4, control=3, trigger=3)),
